@@ -776,6 +776,29 @@ package leveldb
 //@   at call (tFiles).searchMax#1
 //@     assert [C01:tables-not-offered-cannot-hold-a-visible-entry] forall j int :: (0 <= j && j < len(tables) && j != result) ==> !mayHold(tables[j], ikey)
 
+// C07 (space is reclaimed): a version stays referenced - and every table it lists stays in storage - until its
+// reference is given back. Choosing the inputs of a compaction takes a reference on the current version; it is
+// either handed to the compaction (which releases it when it is done) or given back on the spot.
+//@ count (*version).release
+//@ func (*session).pickCompaction
+//@   props C07
+//@   safety off
+//@   ensures [C07:version-reference-given-back-when-there-is-nothing-to-compact] result == nil ==> calls("(*version).release") == old(calls("(*version).release")) + 1
+//@   guarantees [C07:version-reference-handed-to-the-compaction] result != nil ==> (calls("(*version).release") == old(calls("(*version).release")) && result.v == v)
+//@ func (*session).getCompactionRange
+//@   props C07
+//@   safety off
+//@   ensures [C07:version-reference-given-back-when-there-is-nothing-to-compact] result == nil ==> calls("(*version).release") == old(calls("(*version).release")) + 1
+//@   guarantees [C07:version-reference-handed-to-the-compaction] result != nil ==> (calls("(*version).release") == old(calls("(*version).release")) && result.v == v)
+//@ func newCompaction
+//@   props C07
+//@   safety off
+//@   ensures [C07:compaction-keeps-the-version-it-was-given] result != nil && result.v == v && calls("(*version).release") == old(calls("(*version).release"))
+//@ func (*compaction).release
+//@   props C07
+//@   safety off
+//@   ensures [C07:a-finished-compaction-gives-its-version-back-once] (!old(c.released) ==> calls("(*version).release") == old(calls("(*version).release")) + 1) && (old(c.released) ==> calls("(*version).release") == old(calls("(*version).release"))) && c.released
+
 // C01 / C03 / C06: a deletion marker may be dropped only when no deeper level can still hold an older entry for its
 // user key. "Base level" must therefore mean: no table of any level below the compaction's output level has the
 // key inside its range. The per-level cursors only move forward; that the tables they have passed lie wholly before
@@ -1299,6 +1322,87 @@ package leveldb
 //@     invariant [C01:every-buffer-is-asked] calls("memGet") == old(calls("memGet")) + (auxm != nil ? 1 : 0) + ((rangeidx >= 1 && em != nil) ? 1 : 0) + ((rangeidx >= 2 && fm != nil) ? 1 : 0)
 //@   at before call (*version).get#1
 //@     assert [C01:buffers-before-tables] calls("memGet") == old(calls("memGet")) + (auxm != nil ? 1 : 0) + (em != nil ? 1 : 0) + (fm != nil ? 1 : 0)
+
+// C02 (range slicing): an iterator restricted to a key range is assembled from sources that are each restricted
+// to that same range - the transaction's buffer and tables, the write buffers and the tables of the version.
+//@ func (*DB).newRawIterator
+//@   props C02 C11
+//@   safety off
+//@   at before call (*version).getIterators#1
+//@     assert [C02,C11:every-source-is-restricted-to-the-range] arg0 == slice
+//@   at before call (*DB).NewIterator#1
+//@     assert [C02,C11:every-source-is-restricted-to-the-range] arg0 == slice
+//@   at before call (*DB).NewIterator#2
+//@     assert [C02,C11:every-source-is-restricted-to-the-range] arg0 == slice
+//@   at before call (*DB).NewIterator#3
+//@     assert [C02,C11:every-source-is-restricted-to-the-range] arg0 == slice
+//@   at before call (*tOps).newIterator#1
+//@     assert [C02,C11:every-source-is-restricted-to-the-range] arg1 == slice
+//@ func (*DB).newIterator
+//@   props C02 C11
+//@   safety off
+//@   at before call (*DB).newRawIterator#1
+//@     assert [C02,C11:sources-and-range-are-the-callers] arg0 == auxm && sameslice(arg1, auxt) && (slice == nil <==> arg2 == nil)
+//@     assert [C02,C11:each-bound-given-stays-a-bound] slice != nil ==> ((isnil(slice.Start) <==> isnil(arg2.Start)) && (isnil(slice.Limit) <==> isnil(arg2.Limit)) && (!isnil(slice.Start) ==> len(arg2.Start) == len(slice.Start) + 8) && (!isnil(slice.Limit) ==> len(arg2.Limit) == len(slice.Limit) + 8))
+//@ func (*version).getIterators
+//@   props C02 C11
+//@   safety off
+//@   at before call (*tOps).newIterator#1
+//@     assert [C02,C11:every-table-iterator-is-restricted-to-the-range] arg1 == slice
+//@   at before call (tFiles).newIndexIterator#1
+//@     assert [C02,C11:every-table-iterator-is-restricted-to-the-range] arg2 == slice
+// (what the source iterators do with the range is C13 / C14 material: left abstract here)
+//@ func (*tOps).newIterator
+//@   props C02 C11
+//@   trusted
+//@ func (tFiles).newIndexIterator
+//@   props C02 C11
+//@   trusted
+
+// C01 / C11: the first buffer that knows the key (a value, a deletion marker, or an error) decides the lookup:
+// nothing older is consulted after it, and the answer given is that buffer's answer. For a transaction this is what
+// makes its own deletions visible to itself.
+//@ ghost var gMemOK bool
+//@ ghost var gMemFound bool
+//@ ghost var gMemGone bool
+//@ func (*DB).get
+//@   props C01 C11
+//@   at entry
+//@     ghost gMemOK = false
+//@   at call memGet#1
+//@     ghost gMemOK = ret0
+//@     ghost gMemFound = (ret2 == nil)
+//@     ghost gMemGone = (ret2 == ErrNotFound)
+//@   at call memGet#2
+//@     ghost gMemOK = ret0
+//@     ghost gMemFound = (ret2 == nil)
+//@     ghost gMemGone = (ret2 == ErrNotFound)
+//@   loop 1
+//@     invariant [C01,C11:no-buffer-knew-the-key-so-far] !gMemOK
+//@   at before call memGet#2
+//@     assert [C01,C11:first-buffer-that-knows-the-key-decides] !gMemOK
+//@   at before call (*version).get#1
+//@     assert [C01,C11:first-buffer-that-knows-the-key-decides] !gMemOK
+//@   ensures [C01,C11:the-deciding-buffers-answer-is-the-answer] gMemOK ==> ((gMemFound <==> err == nil) && (gMemGone <==> err == ErrNotFound))
+//@ func (*DB).has
+//@   props C01 C11
+//@   at entry
+//@     ghost gMemOK = false
+//@   at call memGet#1
+//@     ghost gMemOK = ret0
+//@     ghost gMemFound = (ret2 == nil)
+//@     ghost gMemGone = (ret2 == ErrNotFound)
+//@   at call memGet#2
+//@     ghost gMemOK = ret0
+//@     ghost gMemFound = (ret2 == nil)
+//@     ghost gMemGone = (ret2 == ErrNotFound)
+//@   loop 1
+//@     invariant [C01,C11:no-buffer-knew-the-key-so-far] !gMemOK
+//@   at before call memGet#2
+//@     assert [C01,C11:first-buffer-that-knows-the-key-decides] !gMemOK
+//@   at before call (*version).get#1
+//@     assert [C01,C11:first-buffer-that-knows-the-key-decides] !gMemOK
+//@   ensures [C01,C11:the-deciding-buffers-answer-is-the-answer] gMemOK ==> ((ret <==> gMemFound) && (gMemGone ==> (!ret && err == nil)) && ((!gMemFound && !gMemGone) ==> err != nil))
 
 // C20: merging other writers into a write never extends the caller's batch: merged single records go to a batch
 // the DB owns (the one passed as ourBatch, or one from the pool; that the pool does not hand out the caller's batch
